@@ -28,6 +28,9 @@ where
         let mut total_nodes = 0;
         let mut data_centers = BTreeMap::new();
         let mut cached_nodes = HashMap::<Consistency, (Instant, Nodes)>::new();
+        // verif hook: when each cached selection was made, on the (possibly paused) tokio clock
+        #[cfg(datacake_verif)]
+        let mut verif_cached_at = HashMap::<Consistency, tokio::time::Instant>::new();
 
         while let Ok(op) = rx.recv_async().await {
             match op {
@@ -52,6 +55,19 @@ where
                     cached_nodes.clear();
                 },
                 Op::GetNodes { consistency, tx } => {
+                    // verif hook: the cache ages with the tokio clock instead of the wall clock
+                    #[cfg(datacake_verif)]
+                    match verif_cached_at.get(&consistency) {
+                        Some(at) if at.elapsed() < NODE_CACHE_TIMEOUT => {
+                            if let Some((_, nodes)) = cached_nodes.get(&consistency) {
+                                let _ = tx.send(Ok(nodes.clone()));
+                                continue;
+                            }
+                        },
+                        _ => {
+                            cached_nodes.remove(&consistency);
+                        },
+                    }
                     if let Some((last_refreshed, nodes)) = cached_nodes.get(&consistency)
                     {
                         if last_refreshed.elapsed() < NODE_CACHE_TIMEOUT {
@@ -71,6 +87,8 @@ where
                     if let Ok(ref nodes) = nodes {
                         cached_nodes
                             .insert(consistency, (Instant::now(), nodes.clone()));
+                        #[cfg(datacake_verif)]
+                        verif_cached_at.insert(consistency, tokio::time::Instant::now());
                     }
 
                     let _ = tx.send(nodes);
